@@ -32,6 +32,46 @@ theorem C04_reader_total (p : Property) (h : WFField p = true) :
   | err t => rw [hw] at hr; cases hr
   | panic w => rw [hw] at hr; cases hr
 
+/-! ## property names: json_name carries the declared name, the proto name is its snake_case -/
+
+/-- the compiler stores the declared j5s name in `json_name` and snake-cases it (`strcase.ToSnake`,
+as modelled byte by byte in `J5V/Compile/Strcase.lean`) for the proto field name -/
+theorem C04_json_and_proto_name (p : Property) (a : Annot) (h : writeField p = .ok a) :
+    a.jsonName = p.name ∧ a.protoName = snakeName p.name := by
+  unfold writeField at h
+  split at h <;> try (simp at h)
+  split at h <;> simp at h
+  subst h
+  exact ⟨rfl, rfl⟩
+
+/-- the reader names every property — single field, array and map alike — by `json_name`, never
+by the proto name -/
+theorem C04_reader_uses_json_name (a : Annot) (q : Property) (h : readField a = .ok q) :
+    q.name = a.jsonName := by
+  unfold readField at h
+  simp only at h
+  split at h
+  · split at h <;> simp at h
+    subst h; rfl
+  · split at h
+    · split at h <;> simp at h
+      subst h; rfl
+    · split at h <;> simp at h
+      subst h; rfl
+
+/-- `strcase.ToLowerCamel` of the proto name — what `jsonFieldName(field.Name())` would give — is
+NOT the declared name as soon as the name is not canonical lowerCamel (acronyms, digits): naming a
+property from its proto name loses `htmlURLs`, `labelsByID`, `x2y`, `URL`. -/
+def lowerCamelOfProtoName (declared : String) : String :=
+  J5V.Compile.Str.toString (J5V.Compile.toLowerCamel ((snakeName declared).toList.map Char.toNat))
+
+example : snakeName "htmlURLs" = "html_ur_ls" ∧ lowerCamelOfProtoName "htmlURLs" = "htmlUrLs" ∧
+    snakeName "labelsByID" = "labels_by_id" ∧ lowerCamelOfProtoName "labelsByID" = "labelsById" ∧
+    snakeName "x2y" = "x_2_y" ∧ lowerCamelOfProtoName "x2y" = "x2Y" ∧
+    snakeName "URL" = "url" ∧ lowerCamelOfProtoName "URL" = "url" ∧
+    lowerCamelOfProtoName "tagNames" = "tagNames" := by
+  decide
+
 /-! ## objects / oneofs as a whole: names, order, proto paths, descriptions, entity and any-membership
 
 `RootDecl`, `writeRoot`, `readRoot`, `WFRoot` live in `J5V/Rules/Root.lean` (the driver runs them). -/
